@@ -120,8 +120,38 @@ def run_real(disp, plan, ops, patience=1):
     ch = Child(disp, plan)
     p = ch.p
     outs = []
+    stale = []
+    real_kill = os.kill
+
+    def watched_kill(pid, sig):
+        # a signal sent to the child's pid after the child has been reaped goes to whoever owns that number now
+        if pid == ch.pid and proc_state(pid) == 'X':
+            stale.append(sig)
+        return real_kill(pid, sig)
     try:
         for op in ops:
+            os.kill = watched_kill
+            try:
+                ret = _one_op(ch, p, op, patience)
+            finally:
+                os.kill = real_kill
+            if stale:
+                ret = 'STALE-PID:%s' % stale[0]
+                del stale[:]
+            outs.append('%s|%s' % (ret, show_sp(p)))
+        st = proc_state(ch.pid)
+        proc = {'Z': 'zombie', 'X': 'reaped', 'T': 'stopped'}.get(st, 'running')
+        fd_open = 'true' if p.child_fd != -1 else 'false'
+        line = ' ; '.join(outs) + ' # proc=%s fdOpen=%s' % (proc, fd_open)
+    finally:
+        os.kill = real_kill
+        ch.cleanup()
+    return line
+
+
+def _one_op(ch, p, op, patience):
+    if True:
+        if True:
             name = op.split(':')[0]
             arg = op.split(':')[1] if ':' in op else None
             try:
@@ -143,6 +173,16 @@ def run_real(disp, plan, ops, patience=1):
                 elif name == 'close':
                     try:
                         p.close(force=(arg == '1')); ret = 'None'
+                    except pexpect.ExceptionPexpect:
+                        ret = 'raised'
+                elif name == 'exit':
+                    # what leaving a with-block does (arg 1: by an exception)
+                    try:
+                        if arg == '1':
+                            p.__exit__(RuntimeError, RuntimeError('left the block by an exception'), None)
+                        else:
+                            p.__exit__(None, None, None)
+                        ret = 'None'
                     except pexpect.ExceptionPexpect:
                         ret = 'raised'
                 elif name == 'ends':
@@ -167,17 +207,12 @@ def run_real(disp, plan, ops, patience=1):
                         ret = 'OSError'
             except Exception as e:      # noqa
                 ret = 'EXC:' + type(e).__name__
-            outs.append('%s|%s' % (ret, show_sp(p)))
-        st = proc_state(ch.pid)
-        proc = {'Z': 'zombie', 'X': 'reaped', 'T': 'stopped'}.get(st, 'running')
-        fd_open = 'true' if p.child_fd != -1 else 'false'
-        line = ' ; '.join(outs) + ' # proc=%s fdOpen=%s' % (proc, fd_open)
-    finally:
-        ch.cleanup()
-    return line
+            return ret
 
 
 def model_line(disp, plan, ops):
+    # leaving a with-block is close() with its default force=True (SpawnBase.__exit__)
+    ops = ['close:1' if o.startswith('exit') else o for o in ops]
     return 'LF %s %d %d %s:%d %s' % ('S' if 's' in disp else 'R', 1 if 'h' in disp else 0, 1 if 'i' in disp else 0, plan[0], plan[1], ' '.join(ops))
 
 
@@ -187,6 +222,9 @@ def oracle(disp, plan, ops, line):
     steps = [s.split('|') for s in body.split(' ; ')]
     fields = [dict(kv.split('=') for kv in s[1].split(' ')) for s in steps]
     rets = [s[0] for s in steps]
+    if any(r.startswith('STALE-PID') for r in rets):
+        i = next(i for i, r in enumerate(rets) if r.startswith('STALE-PID'))
+        return 'C10', '%s sent signal %s to the child\'s pid after the child had been reaped (the number may belong to another process by now)' % (ops[i], rets[i].split(':')[1])
     if any(r.startswith('EXC') for r in rets):
         i = next(i for i, r in enumerate(rets) if r.startswith('EXC'))
         # an operation that observes the child's end and raises instead of recording its fate breaks C09 as much as C10
@@ -210,11 +248,12 @@ def oracle(disp, plan, ops, line):
             return 'C09', 'wait() returned %s but the object does not know the child\'s fate afterwards (%s)' % (r, steps[i][1])
         if op == 'alive' and r == 'true' and fields[i]['t'] == 'true':
             return 'C10', 'isalive() returned True for a child already reported terminated'
-        if op.startswith('close'):
+        if op.startswith('close') or op.startswith('exit'):
+            what = 'close' if op.startswith('close') else 'leaving the with-block'
             if fields[i]['fd'] != '-1' or fields[i]['c'] != 'true':
-                return 'C10', 'after close the object still holds descriptor state %s' % fields[i]
-            if op == 'close:1' and (r != 'None' or fields[i]['t'] != 'true'):
-                return 'C10', 'close(force=True) did not leave the child terminated: %s %s' % (r, fields[i])
+                return 'C10', 'after %s the object still holds descriptor state %s' % (what, fields[i])
+            if (op == 'close:1' or op.startswith('exit')) and (r != 'None' or fields[i]['t'] != 'true'):
+                return 'C10', '%s did not leave the child terminated: %s %s' % ('close(force=True)' if op == 'close:1' else what, r, fields[i])
         if op == 'term:1' and (r != 'true' or fields[i]['t'] != 'true'):
             return 'C10', 'terminate(force=True) returned %s, terminated=%s' % (r, fields[i]['t'])
         if op in ('send', 'read') and any(o.startswith('close') for o in ops[:i]) and r == 'ok':
@@ -508,7 +547,7 @@ def hostile_close(ctx, sigs):
                 common.report(ctx, 'close/%s/%s' % (scen, kind), '%s, %s: %s' % (scen, kind, '; '.join(problems)), dict(scenario=scen, kind=kind, problems=problems))
 
 
-OPS = ['alive', 'wait', 'kill:1', 'kill:2', 'kill:9', 'kill:15', 'kill:18', 'term:0', 'term:1', 'close:0', 'close:1', 'ends', 'send', 'read']
+OPS = ['alive', 'wait', 'kill:1', 'kill:2', 'kill:9', 'kill:15', 'kill:18', 'term:0', 'term:1', 'close:0', 'close:1', 'ends', 'send', 'read', 'exit:0', 'exit:1']
 
 
 def run(ctx):
@@ -523,6 +562,9 @@ def run(ctx):
              ('s', ('e', 0), ['alive', 'close:1', 'alive']),
              ('his', ('e', 0), ['term:0', 'term:1', 'alive']),
              # a polite close() that the child survives, the child's own end later, observed by wait() first
+             ('hi', ('e', 4), ['close:0', 'exit:0', 'alive']),                  # inside a with-block: a polite close() the child survives, then the block ends
+             ('hi', ('e', 4), ['close:0', 'exit:1']),
+             ('', ('e', 4), ['exit:0', 'exit:0', 'send']),
              ('hi', ('e', 7), ['close:0', 'ends', 'wait', 'alive']),
              ('hi', ('s', 9), ['close:0', 'ends', 'wait', 'wait']),
              ('hi', ('e', 0), ['close:0', 'close:0', 'ends', 'wait'])]
